@@ -108,9 +108,76 @@ func Repeated(r *Rng) string {
 	}
 }
 
+var sweepBoundaries = []rune{0x7f, 0x80, 0xa0, 0xff, 0x100, 0x17f, 0x180, 0x2ff, 0x300, 0x36f, 0x370, 0x7ff, 0x800, 0xd7ff, 0xe000, 0xfffd, 0xfffe, 0xffff, 0x10000, 0x1ffff, 0xe007f, 0x10fffd, 0x10ffff}
+
+// CodePoint puts one code point — every one below U+0180 is reached, plus block boundaries — into one of the
+// contexts in which the lexer classifies runes.
+func CodePoint(r *Rng) string {
+	var c rune
+	if r.Chance(1, 6) {
+		c = Pick(r, sweepBoundaries)
+	} else {
+		c = rune(r.Intn(0x180))
+	}
+	if c == 0 {
+		c = 1
+	}
+	ch := string(c)
+	switch r.Intn(12) {
+	case 0:
+		return ch
+	case 1:
+		return "a" + ch + "b"
+	case 2:
+		return ch + "a"
+	case 3:
+		return "a" + ch
+	case 4:
+		return `f:"` + ch + `"`
+	case 5:
+		return `f:"a` + ch + `b"`
+	case 6:
+		return "f:/a" + ch + "b/"
+	case 7:
+		return "f:[" + ch + " TO z" + ch + "]"
+	case 8:
+		return "f:a" + ch + "*"
+	case 9:
+		return ch + ":v"
+	case 10:
+		return "a\\" + ch + "b"
+	default:
+		return "a " + ch + " b"
+	}
+}
+
+// EscapeRun puts a run of 1–6 backslashes before a special character inside a bare word, a quoted phrase or a regexp.
+func EscapeRun(r *Rng) string {
+	run := strings.Repeat("\\", 1+r.Intn(6))
+	sp := Pick(r, []string{"/", `"`, "'", " ", ":", "*", "?", "(", ")", "", "a", "\t", "~"})
+	switch r.Intn(6) {
+	case 0:
+		return "f:/a" + run + sp + "b/"
+	case 1:
+		return "f:/a" + run + sp
+	case 2:
+		return `f:"a` + run + sp + `b"`
+	case 3:
+		return "f:a" + run + sp + "b"
+	case 4:
+		return "a" + run + sp
+	default:
+		return "/" + run + sp + "/"
+	}
+}
+
 // OffPath is one query text of generator G6, with the name of the sub-generator.
 func OffPath(r *Rng) (string, string) {
-	switch r.Intn(12) {
+	switch r.Intn(16) {
+	case 12, 13, 14:
+		return CodePoint(r), "G6-codepoint"
+	case 15:
+		return EscapeRun(r), "G6-escaperun"
 	case 0, 1:
 		return LongFlat(r), "G6-longflat"
 	case 2, 3:
